@@ -233,8 +233,15 @@ async def server_case(problems):
 
         good = await talk([enq("a", "sleep 0.3")], read=1)
         ta = good[0]["tid"]
-        for bad in ([b"not json\n"], [b"[1, 2]\n"], [b'{"__kind__": "cancel_task", "tid": 999}\n'],
-                    [b'{"__kind__": "enqueue_task"}\n'], [b'{"__kind__": "nosuch", "x": 1}\n'], [b'{"no_kind": 1}\n'], []):
+        bads = [[b"not json\n"], [b"[1, 2]\n"], [b'{"__kind__": "cancel_task", "tid": 999}\n'],
+                [b'{"__kind__": "enqueue_task"}\n'], [b'{"__kind__": "nosuch", "x": 1}\n'], [b'{"no_kind": 1}\n'], [],
+                [b'{"__kind__": "get_task_state"}\n'], [b'{"__kind__": "cancel_task", "tid": "7"}\n'],
+                [b'{"__kind__": "cancel_task", "tid": null}\n'], [b'{"__kind__": "enqueue_task", "name": "half'],
+                # ids close to the ones handed out so far, never handed out themselves
+                [(json.dumps({"__kind__": "cancel_task", "tid": ta + 2}) + "\n").encode()],
+                [(json.dumps({"__kind__": "cancel_task", "tid": ta + 4}) + "\n").encode()],
+                [(json.dumps({"__kind__": "get_task_state", "tid": ta + 3}) + "\n").encode()]]
+        for bad in bads:
             await talk(bad)
             await asyncio.sleep(0.02)
         if not srv.server.is_serving():
@@ -245,16 +252,32 @@ async def server_case(problems):
         if not srv.server.is_serving():
             problems.append("server: stopped serving after a cancel_task request")
             return
-        more = await talk([enq("b", "exit 0", [ta]), enq("c", "exit 0")], read=2)
-        ids = [ta] + [m["tid"] for m in more]
-        if len(set(ids)) != len(ids):
-            problems.append(f"server: task ids are not unique: {ids}")
+        accepted = {ta: ("a", "CANCELLED")}
+        order = [ta]
+        more = [("b", "exit 0", [ta], "CANCELLED"), ("c", "exit 0", [], "COMPLETED"), ("d", "exit 3", [], "FAILED"),
+                ("e", "exit 0", [], "COMPLETED"), ("f", "exit 1", [], "FAILED"), ("g", "exit 0", [], "COMPLETED")]
+        for name, script, deps, final_state in more:
+            r = await talk([enq(name, script, deps)], read=1)
+            tid = r[0]["tid"]
+            if tid in accepted:
+                problems.append(f"server: task {name!r} was given id {tid}, already the id of task {accepted[tid][0]!r} "
+                                f"(after cancels of ids never handed out)")
+                return
+            accepted[tid] = (name, final_state)
+            order.append(tid)
+            # a misbehaving client between two accepted tasks
+            await talk([(json.dumps({"__kind__": "cancel_task", "tid": tid + 2}) + "\n").encode()])
+        ids = order
         await settle(s, ids)
         st = await talk([b'{"__kind__": "get_task_states"}\n'], read=1)
-        got = {int(k): v for k, v in st[0]["tasks"].items()}
-        want = {k: v.name for k, v in s.task_states.items()}
+        got = {(int(k) if k.lstrip("-").isdigit() else k): v for k, v in st[0]["tasks"].items()}
+        want = {k: v[1] for k, v in accepted.items()}
         if got != want:
-            problems.append(f"server: state query returned {got}, the pool's table is {want}")
+            problems.append(f"server: state query returned {got}; the accepted tasks and their true final states are {want}")
+        for t in ids:
+            one = await talk([(json.dumps({"__kind__": "get_task_state", "tid": t}) + "\n").encode()], read=1)
+            if one[0].get("state") != want[t]:
+                problems.append(f"server: get_task_state({t}) answered {one[0]}, task {accepted[t][0]!r} ended {want[t]}")
         for t in ids:
             if not final(s.task_states[t]):
                 problems.append(f"server: accepted task {t} did not reach a final state next to misbehaving clients")
@@ -278,6 +301,85 @@ def replay_server(eng, ob, model, seed):
     finally:
         logging.disable(logging.NOTSET)
     if not problems:
-        return {"failed_on_real_code": False, "candidates_tried": 1, "bound": "7 misbehaving clients, 3 tasks"}
+        return {"failed_on_real_code": False, "candidates_tried": 1, "bound": "21 misbehaving connections (malformed, incomplete, unknown kinds, unknown ids near the live ones), 7 tasks"}
     return {"failed_on_real_code": True, "input": {"scenario": "misbehaving clients"}, "observed": problems,
             "candidates_tried": 1, "witness_class": "server", "call": "real Server over 127.0.0.1 sockets"}
+
+
+async def restart_case(problems):
+    """C08 for the local backend: the state reported for a target is the state of ITS latest job, also after the
+    worker pool was restarted. Real Scheduler + Server on an ephemeral port, real LocalOps / TrackingBackend clients
+    (blocking sockets, run in a thread), three gwf invocations."""
+    from gwf.backends.local import Scheduler, Server, LocalOps
+    from gwf.backends.base import TrackingBackend, BackendStatus
+    from gwf.core import Target
+    d = pathlib.Path(tempfile.mkdtemp(prefix="gwfverif-"))
+    loop = asyncio.get_running_loop()
+    try:
+        (d / ".gwf" / "logs").mkdir(parents=True)
+
+        async def pool():
+            s = Scheduler(working_dir=d, max_cores=2)
+            srv = Server(s)
+            srv.server = await asyncio.start_server(srv.handle_connection, "127.0.0.1", 0)
+            return s, srv, srv.server.sockets[0].getsockname()[1]
+
+        def invocation(port, submit=(), ask=()):
+            """one gwf process: open the backend, submit, read states, close"""
+            be = TrackingBackend(str(d), name="local", ops=LocalOps(str(d), "127.0.0.1", port, target_defaults={}))
+            try:
+                for t in submit:
+                    be.submit(t, [])
+                return {t.name: be.status(t) for t in ask}, dict(be._tracked_jobs)
+            finally:
+                be.close()
+
+        A = Target(name="A", inputs=[], outputs=[], options={}, working_dir=str(d), spec="exit 0")
+        B = Target(name="B", inputs=[], outputs=[], options={}, working_dir=str(d), spec="sleep 5")
+        s1, srv1, port1 = await pool()
+        _, tracked1 = await loop.run_in_executor(None, invocation, port1, (A,), ())
+        await settle(s1, list(s1.tasks))
+        st, _ = await loop.run_in_executor(None, invocation, port1, (), (A,))
+        if st["A"] not in (BackendStatus.COMPLETED, BackendStatus.UNKNOWN):
+            problems.append(f"restart: before the restart A (exit 0, finished) is reported {st['A']}")
+        srv1.server.close()          # (wait_closed would wait for handler transports that are never closed)
+        # the pool is started again (gwf workers), a second target is submitted by a later invocation
+        s2, srv2, port2 = await pool()
+        _, tracked2 = await loop.run_in_executor(None, invocation, port2, (B,), ())
+        await asyncio.sleep(0.2)
+        st, tracked3 = await loop.run_in_executor(None, invocation, port2, (), (A, B))
+        if tracked3.get("A") == tracked3.get("B"):
+            problems.append(f"restart: after a restart of the worker pool targets A and B are tracked under the same job id "
+                            f"({tracked3}): A's entry now denotes B's job")
+        if st["A"] not in (BackendStatus.COMPLETED, BackendStatus.UNKNOWN):
+            problems.append(f"restart: A's job finished in the previous pool (no record in the new one), but A is reported "
+                            f"{st['A'].name}: that is the state of B's running job {tracked3.get('B')!r}")
+        if st["B"] != BackendStatus.RUNNING:
+            problems.append(f"restart: B (sleep 5, just started, 2 cores free) is reported {st['B']}")
+        for t in list(s2.tasks):
+            await s2.cancel_task(t)
+        await settle(s2, list(s2.tasks))
+        srv2.server.close()
+    finally:
+        shutil.rmtree(d, ignore_errors=True)
+
+
+def replay_restart(eng, ob, model, seed):
+    import logging
+    problems = []
+    logging.disable(logging.CRITICAL)
+    try:
+        loop = asyncio.new_event_loop()
+        loop.set_exception_handler(lambda l, c: None)
+        loop.run_until_complete(asyncio.wait_for(restart_case(problems), 60))
+        loop.close()
+    except Exception as e:
+        problems.append(f"restart scenario raised {type(e).__name__}: {e}")
+    finally:
+        logging.disable(logging.NOTSET)
+    if not problems:
+        return {"failed_on_real_code": False, "candidates_tried": 1,
+                "bound": "one restart of the pool, 2 targets, 4 invocations of the local backend"}
+    return {"failed_on_real_code": True, "input": {"scenario": "gwf -b local run A; restart `gwf workers`; run B; status"},
+            "observed": problems, "candidates_tried": 1, "witness_class": "local-pool-restart-reuses-ids",
+            "call": "real Scheduler/Server twice on 127.0.0.1, real LocalOps + TrackingBackend clients"}
